@@ -1,6 +1,7 @@
 #!/bin/sh
 # usage: tools/seedone.sh <seed dir, e.g. seeded/C06/r2-3> <CHECK> [tier]   -- run one check against one stored seeded change
-# (scratch worktree of /repo HEAD + a private copy of /verif, so nothing here is rewritten)
+# (scratch worktree of /repo HEAD + a private copy of /verif, so nothing here is rewritten; the copy is of the working
+# tree, or with SEED_USE_HEAD=1 of the committed sources)
 set -e
 V=$(cd "$(dirname "$0")/.." && pwd)
 S=$1; C=$2; T=${3:-quick}
@@ -9,7 +10,13 @@ WT=/tmp/so-$TAG; VC=/tmp/sovc-$TAG
 git -C /repo worktree remove --force "$WT" >/dev/null 2>&1 || true
 git -C /repo worktree add --detach "$WT" HEAD -q
 git -C "$WT" apply "$V/$S/patch.diff" || git -C "$WT" apply --3way "$V/$S/patch.diff"
-rsync -a --delete --exclude .git --exclude seeded --exclude evidence --exclude '.lock-*' "$V/" "$VC/"
+rm -rf "$VC"; mkdir -p "$VC"
+if [ -z "$SEED_USE_HEAD" ]; then      # the working tree as it is (what the agent who is editing a check wants)
+  rsync -a --exclude .git --exclude seeded --exclude evidence --exclude '.lock-*' "$V/" "$VC/" || [ $? -eq 24 ]
+else                                   # SEED_USE_HEAD=1: the committed sources + the build output
+  git -C "$V" archive HEAD -- . ':!seeded' ':!evidence' | tar -x -C "$VC"
+  rsync -a "$V/lean/.lake" "$VC/lean/" || [ $? -eq 24 ]
+fi
 cd "$VC"
 set +e
 MIDGARD_REPO="$WT" VERIF_EVIDENCE_DIR="/tmp/so-ev-$TAG" ./check "$C" --tier "$T" | grep -E "^VIOLATION|^  what|^KNOWN|^TOOL|exit [0-9]" | head -8
